@@ -1,3 +1,54 @@
+//! isolit — iso-literal-level properties: C07 (parser total, spans well-formed), C22 (formatting),
+//! C23 (LSP positions under UTF-16), C28 (SWC transform vs compiler parse), C32 (resolve_position).
+use proptest::prelude::*;
+use serde_json::Value;
+use vcore::{Fail, Report};
+
+mod c07;
+mod c32;
+mod parse;
+
 fn main() {
-    vcore::inconclusive("isolit: not built yet");
+    let args = vcore::parse_args();
+    match args.property.as_str() {
+        "C07" => c07::run(&args),
+        "C32" => c32::run(&args),
+        other => vcore::inconclusive(&format!("isolit: unknown property {other}")),
+    }
+}
+
+/// Run one generated domain with proptest; report the first failure that is not a listed finding.
+pub fn drive<S, F, J>(report: &Report, name: &str, cases: u32, strategy: S, f: F, to_json: J)
+where
+    S: Strategy,
+    S::Value: Clone,
+    F: Fn(&S::Value) -> Result<(), Fail>,
+    J: Fn(&S::Value) -> Value,
+{
+    if report.violation_count() > 0 {
+        return;
+    }
+    if let Some((value, fail)) = vcore::run_prop(report, name, cases, strategy, f) {
+        report.violation(name, &fail, to_json(&value));
+    }
+    report.unfreeze();
+}
+
+/// Same, on several worker threads (each with a derived seed).
+pub fn drive_parallel<S, F, J, M>(report: &Report, name: &str, cases: u32, make: M, f: F, to_json: J)
+where
+    S: Strategy,
+    S::Value: Clone + Send,
+    M: Fn() -> S + Sync,
+    F: Fn(&S::Value) -> Result<(), Fail> + Sync,
+    J: Fn(&S::Value) -> Value,
+{
+    if report.violation_count() > 0 {
+        return;
+    }
+    let workers = vcore::num_workers().min(8);
+    if let Some((value, fail)) = vcore::run_prop_parallel(report, name, cases, workers, make, f) {
+        report.violation(name, &fail, to_json(&value));
+    }
+    report.unfreeze();
 }
